@@ -574,14 +574,29 @@ func (e *liveEnv) liveUnary(r *h.Run, mode, fam, proto string, h2 bool, prog hpr
 	c, url, hc := e.newCall(r, mode, fam, "unary", proto, h2, prog)
 	client := connect.NewClient[h.Raw, h.Raw](hc, url, liveClientOpts(proto)...)
 	req := connect.NewRequest(bigMsg(32))
+	if prog.Slow == -1 {
+		// a request message the codec refuses to marshal: Send fails locally, before anything is
+		// written; the call must still close both sides (the request is made, and answered)
+		prog.Slow = 0
+		req = connect.NewRequest(&h.Raw{B: []byte{0xEE, 0xEE, 0xEE}})
+		c.log = append(c.log, "[the request message cannot be marshalled]")
+	}
 	req.Header().Set("X-Prog", prog.String())
 	req.Header().Set("X-Call", c.id)
-	r.Eval(fam, fmt.Sprintf("unary/%s/%v/%s", proto, h2, prog))
+	r.Eval(fam, fmt.Sprintf("unary/%s/%v/%s/%d", proto, h2, prog, len(req.Msg.B)))
 	err, ok := c.step("CallUnary", func() error { _, err := client.CallUnary(context.Background(), req); return err })
 	if !ok {
 		return nil, false
 	}
 	result, returned = err, true
+	if len(req.Msg.B) == 3 && req.Msg.B[0] == 0xEE {
+		if err == nil {
+			c.r.Fail(h.Failure{Key: "outcome/unary", Family: fam, What: "a call whose request could not be marshalled succeeded", Input: c.input()})
+		}
+		r.Sample(fam, c.input())
+		c.afterCall(true)
+		return
+	}
 	want := prog.outcome()
 	got := liveCls(err)
 	if want == "eof" {
@@ -951,6 +966,9 @@ func liveFamily(r *h.Run, rng *h.Rng, fam string, cancelMode bool) {
 			}
 			switch kind {
 			case "unary":
+				if rng.Chance(25) {
+					prog.Slow = -1 // marks: the request message cannot be marshalled
+				}
 				e.liveUnary(r, "C14", fam, proto, h2, prog)
 				return
 			case "client":
